@@ -365,6 +365,9 @@ def run(ctx):
     from .. import rdwrtail
     if rdwrtail.run_c08(ctx, fs, quick):
         found = True
+    from .. import querycamp
+    if querycamp.run(ctx, "C08", parts=("rw",)):      # queries between writes / reads of a read/write handle
+        found = True
     ctx.notes["rdwr_refused_at_open"] = skipped
     ctx.notes["known_finding_class_hits"] = kf_hits
     corr = [x for x in fa if x.kind == "corr"]
